@@ -1,7 +1,7 @@
 (* C17/E2E.v — the two components around one registry and one event bus (Model.e2e_step):
-   with terminate events resolved as in the Repaired variant, the session of the newest claimant
-   is the only live session of its tuple and the registry owner; the Defective variant (HEAD)
-   destroys it. *)
+   with terminate events resolved as /repo HEAD does since 94649ad (variant Repaired), the session
+   of the newest claimant is the only live session of its tuple and the registry owner; the code
+   before that fix (variant Defective) destroyed it. *)
 From OV Require Import Common.Base C17.Model C17.Proofs.
 
 Lemma sid_disjoint n m : bytes_eqb (ipoe_sid n) (pppoe_sid m) = false /\ bytes_eqb (pppoe_sid m) (ipoe_sid n) = false.
@@ -118,12 +118,13 @@ Proof.
   rewrite find_pp_none by exact H2. reflexivity.
 Qed.
 Lemma pppoe_terminate_hit w sid k s :
-  m_get k (w_pp_key w) = Some s -> o_sid s = sid ->
+  m_get k (w_pp_key w) = Some s -> o_sid s = sid -> o_key s = k ->
   pppoe_terminate Repaired w (sid, k) =
   mkW (component_release proto_pppoe (w_reg w) (o_key s) (o_sid s)) (w_ipoe w)
       (m_del (o_key s) (w_pp_key w)) (remove_pp (o_key s) (o_sid s) (w_pp_all w)) (w_next w).
 Proof.
-  intros H E. subst sid. unfold pppoe_terminate. rewrite H. simpl. rewrite bytes_eqb_refl. reflexivity.
+  intros H E Ek. subst sid. unfold pppoe_terminate. rewrite H. simpl. rewrite bytes_eqb_refl.
+  rewrite Ek, H, bytes_eqb_refl. reflexivity.
 Qed.
 
 (* one step of the repaired system, on a world satisfying the invariant *)
@@ -337,7 +338,7 @@ Proof.
     split; [intros k0; apply inv_exclusive; exact I' | exact S].
 Qed.
 
-(* HEAD: the displacing session is destroyed by its own eviction event, in both directions *)
+(* before 94649ad: the displacing session was destroyed by its own eviction event, in both directions *)
 Definition e2e_k : key := mkKey 100 10 [2; 170; 187; 204; 0; 1]%N.
 Lemma e2e_defective_witness :
   e2e_snapshot (e2e_run Defective world0 [EDiscover e2e_k; EPadr e2e_k]) e2e_k = (0%nat, 0%nat, None) /\
